@@ -461,6 +461,17 @@ def run_case(idx, rng, tier, rep):
     def sendable(s):
         return s['state'] in ('open', 'hcr')
 
+    def announce_length(h, es):
+        """Now and then the message announces its body length: the sender then sends exactly that many octets of DATA payload
+        (padding does not count), and the receiver must take them."""
+        if rng.random() >= 0.15:
+            return None
+        n = 0 if es else rng.choice([0, 3, 40, 1500, 20000])
+        text = isinstance(h[0][0], str)
+        h.insert(len(h) - 1, ('content-length', str(n)) if text else (b'content-length', str(n).encode()))
+        rep.count('messages_announcing_their_length')
+        return n
+
     def op_request(x):
         X = sides[x]
         if not X.client:
@@ -468,6 +479,7 @@ def run_case(idx, rng, tier, rep):
         sid = X.next_id
         es = rng.random() < 0.35
         h = make_headers(rng, 'request', tag())
+        cl = announce_length(h, es)
         kw = {}
         prio = None
         if rng.random() < 0.15:
@@ -484,6 +496,7 @@ def run_case(idx, rng, tier, rep):
         X.next_id += 2
         s = X.st[sid] = new_stream('E', 'open')
         s['sent'] = 'final'
+        s['cl'] = cl
         if es:
             end_local(s)
         enqueue(x, {'k': 'headers', 'sid': sid, 'hkind': 'request', 'headers': delivered_form(h), 'es': es, 'prio': prio})
@@ -504,6 +517,7 @@ def run_case(idx, rng, tier, rep):
         info = s['state'] != 'resl' and rng.random() < 0.2
         es = (not info) and rng.random() < 0.35
         h = make_headers(rng, 'informational' if info else 'final', tag())
+        cl = None if info else announce_length(h, es)
         ops.append((x, 'send_headers', sid, 'informational' if info else 'final', es))
         r = call(x, 'send_headers', sid, h, end_stream=es)
         if r.exc is not None:
@@ -513,6 +527,7 @@ def run_case(idx, rng, tier, rep):
             if s['state'] == 'resl':
                 s['state'] = 'hcr'
             s['sent'] = 'final'
+            s['cl'] = cl
             if es:
                 end_local(s)
         enqueue(x, {'k': 'headers', 'sid': sid, 'hkind': 'informational' if info else 'final', 'headers': delivered_form(h), 'es': es})
@@ -537,9 +552,20 @@ def run_case(idx, rng, tier, rep):
         r0 = rng.random()
         n = rng.randrange(0, 40) if r0 < 0.6 else (rng.randrange(0, 2000) if r0 < 0.9 else room)
         n = max(0, min(n, room))
+        es = rng.random() < 0.25
+        left = X.st[sid].get('cl')
+        if left is not None:
+            # an announced length: never more than what is left of it, and END_STREAM only with the last octet
+            if rng.random() < 0.5:
+                n = min(left, room)
+            n = min(n, left)
+            es = es and n == left
+            X.st[sid]['cl'] = left - n
+            rep.count('data_frames_of_messages_with_announced_length')
+            if pad is not None:
+                rep.count('padded_data_frames_of_messages_with_announced_length')
         body = (b'%08d' % tag()) + bytes(rng.getrandbits(8) for _ in range(8)) * (n // 8 + 1)
         body = body[:n]
-        es = rng.random() < 0.25
         ops.append((x, 'send_data', sid, n, pad, es))
         kw = {} if pad is None else {'pad_length': pad}
         r = call(x, 'send_data', sid, body, end_stream=es, **kw)
@@ -553,7 +579,7 @@ def run_case(idx, rng, tier, rep):
 
     def op_end(x):
         X = sides[x]
-        sid = pick(X, lambda i, s: sendable(s) and s['sent'] == 'final')
+        sid = pick(X, lambda i, s: sendable(s) and s['sent'] == 'final' and not s.get('cl'))
         if sid is None:
             return False
         if rng.random() < 0.5:
